@@ -3,6 +3,7 @@ package sym
 import (
 	"fmt"
 	"go/types"
+	"sort"
 	"strings"
 
 	"golang.org/x/tools/go/ssa"
@@ -86,9 +87,23 @@ func (m *Machine) appendOp(s, t Value, site *ssa.CallCommon) Value {
 	// []byte forms
 	if bs, ok := s.(ByteSlice); ok {
 		if bs.Resliced {
-			if tt, isBS := t.(ByteSlice); !isBS || !(tt.Nil || m.isEmptyLit(tt.T)) {
-				panic(m.unsupported("append onto a re-sliced opaque []byte: the write may go through to a backing array shared with other values, which the opaque-bytes domain does not track"))
+			var add *Term
+			switch tt := t.(type) {
+			case ByteSlice:
+				if tt.Nil || m.isEmptyLit(tt.T) {
+					return bs
+				}
+				add = m.current(tt)
+			case *Term:
+				if m.isEmptyLit(tt) {
+					return bs
+				}
+				add = tt
 			}
+			if add == nil || bs.Buf == nil || !bs.AtStart || !m.isEmptyLit(bs.T) {
+				panic(m.unsupported("append onto a re-sliced opaque []byte other than x[:0] of a slice whose allocation the engine saw: the write may go through to a backing array shared with other values"))
+			}
+			return m.appendThrough(bs, add)
 		}
 		switch tt := t.(type) {
 		case ByteSlice:
@@ -96,17 +111,21 @@ func (m *Machine) appendOp(s, t Value, site *ssa.CallCommon) Value {
 				return bs
 			}
 			if bs.Nil || m.isEmptyLit(bs.T) {
-				return ByteSlice{T: tt.T}
+				return m.freshBytes(tt.T)
 			}
-			return ByteSlice{T: m.strConcat(bs.T, tt.T)}
+			return m.freshBytes(m.strConcat(bs.T, tt.T))
 		case *Term: // append([]byte, string...)
 			if bs.Nil || m.isEmptyLit(bs.T) {
-				return ByteSlice{T: tt}
+				return m.freshBytes(tt)
 			}
-			return ByteSlice{T: m.strConcat(bs.T, tt)}
+			return m.freshBytes(m.strConcat(bs.T, tt))
 		case SliceV:
 			if tt.Len == 0 {
 				return bs
+			}
+			// constant bytes (append(b, '\n')): a literal
+			if lit, ok := constBytes(tt); ok {
+				return m.appendOp(bs, m.strLit(lit), site)
 			}
 			if bs.Nil || m.isEmptyLit(bs.T) {
 				// copy into a fresh array
@@ -169,6 +188,99 @@ func (m *Machine) appendOp(s, t Value, site *ssa.CallCommon) Value {
 		ne[i] = z
 	}
 	return SliceV{O: m.newObj(&ArrayV{E: ne}, "append"), Len: need, Cap: ncap}
+}
+
+// freshBytes is an opaque []byte in a backing array of its own, allocated now.
+func (m *Machine) freshBytes(t *Term) ByteSlice {
+	m.objSeq++
+	id := m.objSeq
+	return ByteSlice{T: t, Buf: &byteBuf{id: id, born: t}, AtStart: true}
+}
+
+// appendThrough is append(x[:0], add...) where x's backing array is known. Go writes into that
+// array when it is large enough - every other live slice of the array then shows the new
+// bytes - and allocates a new one otherwise. The capacity is the allocator's choice: both cases
+// are explored. Other slices of the array are rewritten in place wherever they live (heap walk).
+func (m *Machine) appendThrough(s ByteSlice, add *Term) Value {
+	n := m.strLen(add)
+	if s.Buf.cap == nil {
+		// the capacity is the allocator's choice: anything not below the length allocated
+		s.Buf.cap = m.fresh(fmt.Sprintf("cap.%d", s.Buf.id), SBV(64))
+		m.assume(BVCmp("bvule", m.strLen(s.Buf.born), s.Buf.cap))
+		m.assume(BVCmp("bvult", s.Buf.cap, BVC(64, 1<<40)))
+	}
+	if !m.branch("append.fits-backing-array", BVCmp("bvule", n, s.Buf.cap)) {
+		return m.freshBytes(add)
+	}
+	m.note("append(x[:0], ...) wrote through a shared backing array")
+	buf := s.Buf
+	// phase 1: the distinct live slices of this array, in a deterministic order
+	var live []ByteSlice
+	m.walkValues(func(v Value) Value {
+		y, ok := v.(ByteSlice)
+		if !ok || y.Buf != buf || y.Nil || m.isEmptyLit(y.T) || structEq(y.T, add, 50) {
+			return v
+		}
+		if !y.AtStart {
+			panic(m.unsupported("write through a backing array that also has a slice not starting at its first byte"))
+		}
+		for _, o := range live {
+			if structEq(o.T, y.T, 50) {
+				return v
+			}
+		}
+		live = append(live, y)
+		return v
+	})
+	sort.SliceStable(live, func(i, j int) bool { return live[i].T.Debug() < live[j].T.Debug() })
+	// phase 2: what each of them shows afterwards
+	repl := make([]*Term, len(live))
+	for i, y := range live {
+		ly := m.strLen(y.T)
+		switch {
+		case m.branch("append.overwrites-whole-alias", Eq(ly, n)):
+			repl[i] = add
+		case m.Domain == DomString:
+			// shorter alias: a prefix of the new bytes; longer alias: the new bytes, then its old tail
+			longer := BVCmp("bvugt", ly, n)
+			repl[i] = Ite(longer, m.strConcat(add, m.strSlice(y.T, n, nil)), m.strSlice(add, nil, ly))
+		default:
+			m.weak = appendUniq(m.weak, []string{"bytes of a slice partly overwritten through a shared backing array (lengths differ) are an unconstrained value in the algebra domain"}, 20)
+			repl[i] = m.fresh("clobbered.bytes", y.T.S)
+		}
+	}
+	// phase 3: rewrite every copy wherever it lives
+	m.walkValues(func(v Value) Value {
+		y, ok := v.(ByteSlice)
+		if !ok || y.Buf != buf || y.Nil {
+			return v
+		}
+		for i, o := range live {
+			if structEq(o.T, y.T, 50) {
+				y.T = repl[i]
+				return y
+			}
+		}
+		return v
+	})
+	return ByteSlice{T: add, Buf: buf, AtStart: true, Resliced: true}
+}
+
+// constBytes renders a slice of constant byte values as a Go string.
+func constBytes(sv SliceV) (string, bool) {
+	arr, ok := sv.O.V.(*ArrayV)
+	if !ok {
+		return "", false
+	}
+	b := make([]byte, 0, sv.Len)
+	for _, e := range arr.E[sv.Off : sv.Off+sv.Len] {
+		t, ok := e.(*Term)
+		if !ok || !t.IsConst() || t.S.K != KBV || t.S.W != 8 {
+			return "", false
+		}
+		b = append(b, byte(t.U))
+	}
+	return string(b), true
 }
 
 func (m *Machine) isEmptyLit(t *Term) bool {
@@ -326,4 +438,133 @@ func sanitize(s string) string {
 		}
 		return '_'
 	}, s)
+}
+
+// walkValues applies visit to every value reachable from the machine's roots (globals, every
+// thread's frames, deferred calls, results), depth first in a deterministic order, replacing
+// each value by what visit returns. Struct and array values are updated in place: every holder
+// of the same value is a copy of the same slice headers.
+func (m *Machine) walkValues(visit func(Value) Value) {
+	seenObj := map[*Obj]bool{}
+	seenMap := map[*MapObj]bool{}
+	seenAgg := map[interface{}]bool{}
+	var walk func(v Value) Value
+	walk = func(v Value) Value {
+		switch x := v.(type) {
+		case nil:
+			return v
+		case ByteSlice:
+			return visit(x)
+		case Ptr:
+			if x.O != nil && !seenObj[x.O] {
+				seenObj[x.O] = true
+				x.O.V = walk(x.O.V)
+			}
+			return v
+		case SliceV:
+			if x.O != nil && !seenObj[x.O] {
+				seenObj[x.O] = true
+				x.O.V = walk(x.O.V)
+			}
+			return v
+		case *StructV:
+			if x == nil || seenAgg[x] {
+				return v
+			}
+			seenAgg[x] = true
+			for i := range x.F {
+				x.F[i] = walk(x.F[i])
+			}
+			return v
+		case *ArrayV:
+			if x == nil || seenAgg[x] {
+				return v
+			}
+			seenAgg[x] = true
+			for i := range x.E {
+				x.E[i] = walk(x.E[i])
+			}
+			return v
+		case IfaceV:
+			x.V = walk(x.V)
+			return x
+		case *FuncV:
+			if x == nil || seenAgg[x] {
+				return v
+			}
+			seenAgg[x] = true
+			for i := range x.FV {
+				x.FV[i] = walk(x.FV[i])
+			}
+			return v
+		case MapV:
+			if x.M != nil && !seenMap[x.M] {
+				seenMap[x.M] = true
+				for i := range x.M.Keys {
+					x.M.Keys[i] = walk(x.M.Keys[i])
+					x.M.Vals[i] = walk(x.M.Vals[i])
+				}
+			}
+			return v
+		case TupleV:
+			for i := range x {
+				x[i] = walk(x[i])
+			}
+			return v
+		case *IterV:
+			if x == nil || seenAgg[x] {
+				return v
+			}
+			seenAgg[x] = true
+			for i := range x.keys {
+				x.keys[i] = walk(x.keys[i])
+			}
+			for i := range x.vals {
+				x.vals[i] = walk(x.vals[i])
+			}
+			return v
+		case *LazyV:
+			if x != nil && x.forced {
+				x.V = walk(x.V)
+			}
+			return v
+		}
+		return v
+	}
+	var gs []*ssa.Global
+	for g := range m.globals {
+		gs = append(gs, g)
+	}
+	sort.Slice(gs, func(i, j int) bool { return gs[i].String() < gs[j].String() })
+	for _, g := range gs {
+		o := m.globals[g]
+		if !seenObj[o] {
+			seenObj[o] = true
+			o.V = walk(o.V)
+		}
+	}
+	for _, th := range m.threads {
+		for _, f := range th.stack {
+			var ks []ssa.Value
+			for k := range f.env {
+				ks = append(ks, k)
+			}
+			sort.Slice(ks, func(i, j int) bool {
+				if ks[i].Name() != ks[j].Name() {
+					return ks[i].Name() < ks[j].Name()
+				}
+				return ks[i].Pos() < ks[j].Pos()
+			})
+			for _, k := range ks {
+				f.env[k] = walk(f.env[k])
+			}
+			for _, d := range f.defers {
+				d.fn = walk(d.fn)
+				for i := range d.args {
+					d.args[i] = walk(d.args[i])
+				}
+			}
+		}
+		th.result = walk(th.result)
+	}
 }
